@@ -88,6 +88,27 @@ static void compare_ops(const Ops<T>& in)
             BB r = (expr);                                                     \
             expect_bool<T>(st, r, e, cls, wit, (unsigned)(in.ca[0] * 32 + in.cb[0]) * 256); \
         }                                                                      \
+        OpStat& li = VH_ST("C13", name);                                       \
+        if (li.on)                                                             \
+        { /* lane independence: lane k among these companions vs the same operands broadcast */ \
+            size_t k = (size_t)(in.ca[0] + in.cb[0]) % N;                      \
+            BB r = (expr);                                                     \
+            B sa = va, sb = vb;                                                \
+            {                                                                  \
+                B va(in.a[k]), vb(in.b[k]);                                    \
+                BB r1 = (expr);                                                \
+                li.evals++;                                                    \
+                li.cell((unsigned)(k * 1024 + in.ca[k] * 32 + in.cb[k]));     \
+                bool uniform = true;                                           \
+                for (size_t i = 1; i < N; ++i)                                 \
+                    if (r1.get(i) != r1.get(0))                                \
+                        uniform = false;                                       \
+                if (!uniform || r1.get(0) != r.get(k))                         \
+                    viol(li, "unclassified", "{" + wit + ",\"lane\":" + std::to_string(k) + ",\"in_batch\":" + std::to_string((int)r.get(k)) + ",\"broadcast0\":" + std::to_string((int)r1.get(0)) + "}"); \
+            }                                                                  \
+            (void)sa;                                                          \
+            (void)sb;                                                          \
+        }                                                                      \
     }
     CMP("eq", va == vb, x == y);
     CMP("ne", va != vb, x != y);
